@@ -10,6 +10,7 @@ from __future__ import annotations
 
 import json
 import random
+import threading
 import time
 
 from . import common, tlc
@@ -144,6 +145,132 @@ def observe(D: dict, resp: dict, cache_key=None) -> list[str]:
         return ["Crash:" + type(exc).__name__]
 
 
+# ------------------------------------------------------------------------------------------ multi-file layout, concurrency
+_gate = threading.local()
+GATE_TIMEOUT = 10.0
+
+
+def _install_gate() -> None:
+    """`format: verif-gate` is a rendezvous point inside body validation (a no-op unless the thread has a role)."""
+    import jsonschema
+
+    if _st.get("gate"):
+        return
+
+    @jsonschema.Draft202012Validator.FORMAT_CHECKER.checks("verif-gate")
+    def _verif_gate(value) -> bool:  # noqa: ANN001
+        role = getattr(_gate, "role", None)
+        if role is not None:
+            k, inside, done = role
+            inside[k].set()                       # I am in the middle of validating my body (my file's scope is pushed)
+            if k + 1 < len(inside):
+                inside[k + 1].wait(GATE_TIMEOUT)  # ... and stay there until the next thread is in the middle of its own
+            if k > 0:
+                done[k - 1].wait(GATE_TIMEOUT)    # the thread before me finishes (resolves its references) while I am inside
+        return True
+
+    _st["gate"] = True
+
+
+def build_multifile(group: list[dict], directory: str) -> str:
+    """One description split over files: main.json + one file per operation, each with its own `#/definitions/Item`."""
+    import os
+
+    dialect = group[0]["d"]["dialect"]
+    is2 = dialect == "2.0"
+    paths = {}
+    for D in group:
+        d = D["d"]
+        f = d["file"]
+        schema = decode_schema(d["resps"][0]["schemas"][0]["s"], dialect)
+        item = decode_schema(D["defs"]["#/definitions/Item"], dialect)
+        ok = {"description": "OK", "schema": schema} if is2 else {"description": "OK", "content": {uncps(d["mts"][0]): {"schema": schema}}}
+        with open(os.path.join(directory, f + ".json"), "w") as fd:
+            json.dump({"responses": {"Ok": ok}, "definitions": {"Item": item}}, fd)
+        op: dict = {"responses": {uncps(d["resps"][0]["key"]): {"$ref": f + ".json#/responses/Ok"}}}
+        if is2:
+            op["produces"] = [uncps(m) for m in d["mts"]]
+        paths["/" + f] = {"get": op}
+    head = {"swagger": "2.0"} if is2 else {"openapi": "3.1.0" if dialect == "3.1" else "3.0.2"}
+    with open(os.path.join(directory, "main.json"), "w") as fd:
+        json.dump({**head, "info": {"title": "t", "version": "1"}, "paths": paths}, fd)
+    return os.path.join(directory, "main.json")
+
+
+def _validate(st: dict, op, resp: dict) -> list[str]:
+    status, headers, body = build_response(resp)
+    response = st["Response"](status_code=status, headers=headers, content=body, request=st["req"], elapsed=0.0, verify=False)
+    try:
+        op.Case().validate_response(response, checks=st["checks"])
+        return []
+    except st["FailureGroup"] as group:
+        return sorted({_kind(f) for f in group.exceptions})
+    except st["Failure"] as f:
+        return [_kind(f)]
+    except Exception as exc:
+        return ["Crash:" + type(exc).__name__]
+
+
+def observe_multifile(item: tuple[list[dict], list[list[dict]]]) -> list[tuple[int, int, str, list[str]]]:
+    """group = the operations of one description (one file each); resps[i] = the responses enumerated for operation i.
+    ONE loaded schema object; every pair is validated sequentially in both orders of the operations, then concurrently:
+    2 and 3 threads are forced into the interleaving that ResponsesResolver.tla's refuted (shared) design goes wrong in -
+    thread k pauses inside its body validation until thread k+1 is inside its own, then finishes first.
+    -> (operation index, response index, phase, reported kinds)"""
+    import itertools
+    import shutil
+    import tempfile
+
+    group, resps = item
+    st = _setup()
+    _install_gate()
+    import schemathesis
+
+    directory = tempfile.mkdtemp(prefix="verif-c04-multi-")
+    out: list = []
+    try:
+        schema = schemathesis.openapi.from_path(build_multifile(group, directory))
+        ops = [schema["/" + D["d"]["file"]]["GET"] for D in group]
+        for phase, order in (("sequential", range(len(group))), ("sequential-reversed", reversed(range(len(group))))):
+            for i in order:
+                for j, resp in enumerate(resps[i]):
+                    out.append((i, j, phase, _validate(st, ops[i], resp)))
+        combos = []
+        for a, b in itertools.permutations(range(len(group)), 2):
+            combos.extend(((a, x), (b, y)) for x in range(len(resps[a])) for y in range(len(resps[b])))
+        for perm in itertools.permutations(range(len(group)), 3):
+            combos.extend(tuple((i, x) for i in perm) for x in range(min(len(r) for r in resps)))
+        for combo in combos:
+            n = len(combo)
+            inside = [threading.Event() for _ in range(n)]
+            done = [threading.Event() for _ in range(n)]
+            results: list = [None] * n
+
+            def worker(k: int, i: int, j: int) -> None:
+                if k > 0:
+                    inside[k - 1].wait(GATE_TIMEOUT)  # start once the thread before is in the middle of its validation
+                _gate.role = (k, inside, done)
+                try:
+                    results[k] = _validate(st, ops[i], resps[i][j])
+                finally:
+                    _gate.role = None
+                    inside[k].set()
+                    done[k].set()
+
+            threads = [threading.Thread(target=worker, args=(k, i, j), daemon=True) for k, (i, j) in enumerate(combo)]
+            for t in threads:
+                t.start()
+            for t in threads:
+                t.join(4 * GATE_TIMEOUT)
+            for k, (i, j) in enumerate(combo):
+                out.append((i, j, "concurrent-%d" % n, results[k] if results[k] is not None else ["Crash:NoVerdict"]))
+    except Exception as exc:
+        out.append((0, 0, "load", ["Crash:" + type(exc).__name__]))
+    finally:
+        shutil.rmtree(directory, ignore_errors=True)
+    return out
+
+
 def _work(item: tuple[int, dict]) -> list[str]:
     di, resp = item
     return observe(_DEFS[di], resp, cache_key=di)
@@ -173,6 +300,8 @@ def signature_parts(D: dict, resp: dict, feat: dict, kind: str, direction: str) 
     d = D["d"]
     parts = ["key=" + feat["gov"]]
     extras: list[str] = []
+    if d.get("file"):
+        parts.append("multi-file:" + feat.get("phase", "sequential").split("-")[0])
     if kind in ("JsonSchemaError", "MalformedJson") or direction == "crash":
         parts.append("mediaType#%d" % feat["mt"])
         if feat["ct"] != "documented":
@@ -180,7 +309,7 @@ def signature_parts(D: dict, resp: dict, feat: dict, kind: str, direction: str) 
         if kind == "JsonSchemaError" and direction == "miss" and feat.get("headerViolation"):
             parts.append("together-with-header-violation")
         if kind == "JsonSchemaError":
-            cls = _SCHEMA_CLASS.get(feat["schema"], feat["schema"])
+            cls = _SCHEMA_CLASS.get(feat["schema"], "format:" + feat["schema"][4:] if feat["schema"].startswith("Fmt-") else feat["schema"])
             if cls != "plain":
                 extras.append("schema=" + cls)
             if d["refSchema"]:
@@ -189,7 +318,8 @@ def signature_parts(D: dict, resp: dict, feat: dict, kind: str, direction: str) 
         parts.append("contentType=" + feat["ct"])
     elif kind in ("MissingHeaders", "HeaderSchema"):
         if kind == "HeaderSchema":
-            types = sorted({(h["schema"].get("s", {}).get("type") or ["?"])[0] for r in d["resps"] for h in r["headers"]
+            types = sorted({(h["schema"].get("s", {}).get("type") or ["?"])[0] + ("(%s)" % h["schema"]["s"]["format"] if h["schema"].get("s", {}).get("format") else "")
+                            for r in d["resps"] for h in r["headers"]
                             if any(uncps(h["name"]).lower() == uncps(s["name"]).lower() for s in resp["hdrs"])})
             parts.append("header:" + "+".join(types))
         if d["refHeader"]:
@@ -249,10 +379,34 @@ def run(ctx: Ctx) -> Outcome:
     pending.sort(key=lambda c: defs[json.dumps(c["d"])])  # one document per run of consecutive items
     for c in pending:
         c["feat"]["headerViolation"] = c["exp"]["HeaderSchema"] == "T"
-    cases = [(defs[json.dumps(c["d"])], c) for c in pending]
+    all_cases = [(defs[json.dumps(c["d"])], c) for c in pending]
+    cases = [(di, c) for di, c in all_cases if _DEFS[di]["d"]["slice"] != "multifile"]
     t1 = time.time()
     obs = common.pmap(_work, [(di, c["resp"]) for di, c in cases], chunk=max(50, len(cases) // (common.NPROC * 6)))
+    # the description split over files: one group per dialect, validated on one schema object sequentially and concurrently
+    groups: dict[str, list[int]] = {}
+    for di, D in enumerate(_DEFS):
+        if D["d"]["slice"] == "multifile":
+            groups.setdefault(D["d"]["dialect"], []).append(di)
+    multi_runs = 0
+    multi_ctx: dict = {}
+    for dialect, dis in sorted(groups.items()):
+        per_op = [[c for di, c in all_cases if di == x] for x in dis]
+        multi_ctx[dialect] = {"group": [_DEFS[x] for x in dis], "cases": per_op}
+        for i, j, phase, kinds in observe_multifile(([_DEFS[x] for x in dis], [[c["resp"] for c in cs] for cs in per_op])):
+            c = dict(per_op[i][j], feat=dict(per_op[i][j]["feat"], phase=phase))
+            cases.append((dis[i], c))
+            obs.append(kinds)
+            multi_runs += 1
     t_replay = time.time() - t1
+    # design level: the shared-resolver design must be refuted and the per-call design proved by TLC (vacuity guard of the above)
+    shared = tlc.require_ok(tlc.run_tlc("ResponsesResolver", "ResponsesResolver_shared.cfg", workers=1, timeout=300), "resolver model (shared)")
+    percall = tlc.require_ok(tlc.run_tlc("ResponsesResolver", "ResponsesResolver_percall.cfg", workers=1, timeout=300), "resolver model (per call)")
+    if "ResolvesOwnFile" not in shared.violated:
+        raise tlc.TLCFailure("ResponsesResolver: the shared-resolver design was not refuted - the concurrency dimension is vacuous")
+    if percall.violated:
+        out.violations.append(Violation("C04:spec:ResolvesOwnFile", "per-call resolver design violates ResolvesOwnFile in ResponsesResolver.tla",
+                                        {"kind": "spec", "invariant": "ResolvesOwnFile", "trace": percall.counterexample[:60]}))
 
     dis: list[tuple[int, str, str]] = []  # (case index, kind, direction)
     nontrivial = 0
@@ -299,7 +453,8 @@ def run(ctx: Ctx) -> Outcome:
         out.violations.append(Violation(
             signature(D, c["resp"], c["feat"], kind, direction, seen),
             "%s %s: expected=%s reported=%s for %s" % (direction, kind, {k: v for k, v in c["exp"].items() if v != "F"}, obs[n], _short(D, c["resp"])),
-            {"D": D, "resp": c["resp"], "exp": c["exp"], "feat": c["feat"], "document": build_document(D)},
+            ({"D": D, "resp": c["resp"], "exp": c["exp"], "feat": c["feat"], "document": build_document(D)} if not D["d"].get("file") else
+             {"D": D, "resp": c["resp"], "exp": c["exp"], "feat": c["feat"], "multi": multi_ctx[D["d"]["dialect"]]}),
         ))
     picks = common.sample(rng, [n for n in range(len(cases)) if obs[n]] or list(range(len(cases))), 5)
     out.coverage = {
@@ -308,7 +463,9 @@ def run(ctx: Ctx) -> Outcome:
         "samples": [{"case": _short(_DEFS[cases[n][0]], cases[n][1]["resp"]), "expected": cases[n][1]["exp"], "reported": obs[n]} for n in picks],
         "evaluations": len(cases),
         "distinct_nontrivial": nontrivial,
-        "definitions": len(_DEFS),
+        "definitions": len(_DEFS), "multi_file_observations": multi_runs,
+        "resolver_model": {"shared_design_refuted_by": [l.split("<")[1].split(" line")[0] for l in shared.counterexample if l.startswith("State") and "<" in l],
+                           "per_call_design_states": percall.distinct},
         "rule": "every (response definition, received response) pair reachable in Responses.tla under %s (TLC-enumerated, each "
                 "replayed once through from_dict + Case.validate_response with the four conformance checks); non-trivial = the "
                 "spec expects or the implementation reports at least one failure kind" % cfg,
@@ -332,6 +489,14 @@ def run(ctx: Ctx) -> Outcome:
 def replay(ctx: Ctx, data: dict) -> Outcome:
     out = Outcome()
     if data.get("kind") == "spec":
+        return out
+    if data.get("multi"):  # the whole group again (sequential both orders + forced interleavings); every disagreeing pair is reported
+        m = data["multi"]
+        for i, j, phase, kinds in observe_multifile((m["group"], [[c["resp"] for c in cs] for cs in m["cases"]])):
+            c = m["cases"][i][j]
+            for kind, direction in disagreements(c["exp"], kinds):
+                out.violations.append(Violation(signature(m["group"][i], c["resp"], dict(c["feat"], phase=phase), kind, direction),
+                                                "%s %s (%s): reported=%s for %s" % (direction, kind, phase, kinds, _short(m["group"][i], c["resp"])), data))
         return out
     o = observe(data["D"], data["resp"])
     for kind, direction in disagreements(data["exp"], o):
